@@ -38,6 +38,16 @@ from ..api.tracepoint import TracePointConfig as TrPoCo, EventSnapshot, StackFra
 from ..grpc import convert_value
 
 
+def __text(value):
+    # protobuf strings have to be valid unicode text: escape lone surrogates instead of losing the whole snapshot
+    if isinstance(value, str):
+        try:
+            value.encode('utf-8')
+        except UnicodeEncodeError:
+            return value.encode('utf-8', 'backslashreplace').decode('utf-8')
+    return value
+
+
 def __convert_tracepoint(tracepoint: TrPoCo):
     return TracePointConfig(ID=tracepoint.id, path=tracepoint.path, line_number=tracepoint.line_no,
                             args=tracepoint.args,
@@ -60,20 +70,20 @@ def __convert_watch_source(source):
 
 
 def __convert_watch(watch: WaRe):
-    return WatchResult(expression=watch.expression, good_result=__convert_variable_id(watch.result),
-                       error_result=watch.error, source=__convert_watch_source(watch.source))
+    return WatchResult(expression=__text(watch.expression), good_result=__convert_variable_id(watch.result),
+                       error_result=__text(watch.error), source=__convert_watch_source(watch.source))
 
 
 def __convert_variable(variable: Var):
-    return Variable(type=variable.type, value=variable.value, hash=variable.hash,
+    return Variable(type=variable.type, value=__text(variable.value), hash=variable.hash,
                     children=[__convert_variable_id(c) for c in variable.children], truncated=variable.truncated)
 
 
 def __convert_variable_id(variable: VarId):
     if variable is None:
         return None
-    return VariableID(ID=variable.vid, name=variable.name, modifiers=variable.modifiers,
-                      original_name=variable.original_name)
+    return VariableID(ID=variable.vid, name=__text(variable.name), modifiers=variable.modifiers,
+                      original_name=__text(variable.original_name))
 
 
 def __convert_lookup(var_lookup):
@@ -99,7 +109,7 @@ def convert_snapshot(snapshot: EventSnapshot) -> Snapshot:
                         duration_nanos=snapshot.duration_nanos,
                         resource=[KeyValue(key=k, value=convert_value(v)) for k, v in
                                   snapshot.resource.attributes.items()],
-                        log_msg=snapshot.log_msg)
+                        log_msg=__text(snapshot.log_msg))
     except Exception:
         # todo should this return None?
         logging.exception("Error converting to protobuf")
